@@ -184,26 +184,25 @@ Proof.
     destruct (match st_pending st with Some p => p_conn p =? c | None => false end) eqn:PC; [exact O|]. cbn [snd].
     constructor; cbn [st_sess st_cid st_pending].
     + intros k s' c1 G A. rewrite (alookup_aremove N.eqb N.eqb_eq).
-      (* the session found afterwards existed before with the same active connection, unless it is c's stored one *)
-      assert (Old : exists s, get_session st k = Some s /\ (s_act s = Some c1 \/ alookup N.eqb c (st_sess st) = Some k)).
-      { destruct k as [x|i]; cbn [get_session st_temps st_stored] in G |- *.
-        - rewrite (alookup_aremove N.eqb N.eqb_eq) in G. destruct (x =? c); [discriminate|]. exists s'; auto.
-        - destruct (alookup N.eqb c (st_sess st)) as [[y|j]|] eqn:Sc; try (exists s'; auto; fail).
-          destruct (alookup bytes_eqb j (st_stored st)) as [s0|] eqn:L; [|exists s'; auto].
-          rewrite (alookup_aset bytes_eqb bytes_eqb_eq) in G. destruct (bytes_eqb i j) eqn:E; [|exists s'; auto].
-          apply bytes_eqb_eq in E; subst j. injection G as <-. cbn in A. discriminate. }
-      destruct Old as [s [G0 [A0|Sc]]].
-      * pose proof (o_act _ O k s c1 G0 A0) as S1. destruct (c1 =? c) eqn:E; [|exact S1].
-        apply N.eqb_eq in E; subst c1. exfalso.
-        (* c's own session: it is removed (temporary) or loses its active connection (stored) *)
-        destruct k as [x|i]; cbn [get_session st_temps st_stored] in G.
-        -- pose proof (o_shape _ O c x S1) as ->. rewrite (alookup_aremove N.eqb N.eqb_eq), N.eqb_refl in G. discriminate.
-        -- rewrite S1 in G. cbn [get_session] in G0. rewrite G0 in G.
-           rewrite (alookup_aset bytes_eqb bytes_eqb_eq), bytes_eqb_refl in G. injection G as <-. cbn in A. discriminate.
-      * exfalso. destruct k as [x|i]; cbn [get_session st_temps st_stored] in G.
-        -- pose proof (o_shape _ O c x Sc) as ->. rewrite (alookup_aremove N.eqb N.eqb_eq), N.eqb_refl in G. discriminate.
-        -- rewrite Sc in G. cbn [get_session] in G0. rewrite G0 in G.
-           rewrite (alookup_aset bytes_eqb bytes_eqb_eq), bytes_eqb_refl in G. injection G as <-. cbn in A. discriminate.
+      destruct k as [x|i]; cbn [get_session st_temps st_stored] in G.
+      * rewrite (alookup_aremove N.eqb N.eqb_eq) in G. destruct (x =? c) eqn:E; [discriminate|].
+        pose proof (o_act _ O (KTemp x) s' c1 G A) as S1.
+        destruct (c1 =? c) eqn:E1; [|exact S1]. apply N.eqb_eq in E1; subst c1.
+        pose proof (o_shape _ O c x S1) as ->. rewrite N.eqb_refl in E; discriminate.
+      * (* a stored session that still names a connection afterwards is an untouched one, and it is not c's *)
+        assert (Old : alookup bytes_eqb i (st_stored st) = Some s' /\
+                      (alookup N.eqb c (st_sess st) = Some (KStored i) -> s_act s' <> Some c)).
+        { destruct (alookup N.eqb c (st_sess st)) as [[y|j]|] eqn:Sc; try (split; [exact G|intros X; discriminate X]).
+          destruct (alookup bytes_eqb j (st_stored st)) as [s0|] eqn:L.
+          - destruct (option_eqb N.eqb (s_act s0) (Some c)) eqn:Ea.
+            + rewrite (alookup_aset bytes_eqb bytes_eqb_eq) in G. destruct (bytes_eqb i j) eqn:E.
+              * injection G as <-. cbn in A. discriminate.
+              * split; [exact G|]. intros X; injection X as <-. rewrite bytes_eqb_refl in E; discriminate.
+            + split; [exact G|]. intros X; injection X as <-. rewrite L in G; injection G as <-.
+              intros Hc. rewrite Hc in Ea. cbn in Ea. rewrite N.eqb_refl in Ea. discriminate.
+          - split; [exact G|]. intros X; injection X as <-. congruence. }
+        destruct Old as [G0 Hn]. pose proof (o_act _ O (KStored i) s' c1 G0 A) as S1.
+        destruct (c1 =? c) eqn:E1; [|exact S1]. apply N.eqb_eq in E1; subst c1. exfalso. exact (Hn S1 A).
     + intros x Hx. rewrite (alookup_aremove N.eqb N.eqb_eq) in Hx. destruct (x =? c); [exfalso; apply Hx; reflexivity|exact (o_cid _ O x Hx)].
     + intros x y Hx. rewrite (alookup_aremove N.eqb N.eqb_eq) in Hx. destruct (x =? c); [discriminate|exact (o_shape _ O x y Hx)].
     + intros p Hp. destruct (o_pend _ O p Hp) as [A B]. split; [|exact B].
